@@ -115,7 +115,12 @@ class Sim:
             attrs = []
             if case["nested"][i]:
                 body_nodes = [ir.Node("", "Relu", [], name=f"b{i}_{k}") for k in range(1 + i % 3)]
-                attrs = [ir.AttrGraph("body", ir.Graph([], [], nodes=body_nodes, name=f"body{i}"))]
+                if i % 2:
+                    # a list of graphs in one attribute (AttributeType.GRAPHS), each with at least two nodes
+                    more = [ir.Node("", "Relu", [], name=f"c{i}_{k}") for k in range(2 + i % 2)]
+                    attrs = [ir.AttrGraphs("branches", [ir.Graph([], [], nodes=body_nodes + [ir.Node("", "Relu", [], name=f"b{i}_x")], name=f"case{i}a"), ir.Graph([], [], nodes=more, name=f"case{i}b")])]
+                else:
+                    attrs = [ir.AttrGraph("body", ir.Graph([], [], nodes=body_nodes, name=f"body{i}"))]
             n = ir.Node("", "If" if attrs else "Add", ins, attrs, name=f"n{i}")
             made.append(n)
         order = [made[p] for p in case["perm"]] if len(case["perm"]) == n0 else made
@@ -461,11 +466,18 @@ class Sim:
             # nested nodes whose owner is untouched: exactly once each
             for owner in untouched:
                 for attr in owner.attributes.values():
-                    if attr.type == ir.AttributeType.GRAPH:
-                        for bn in attr.value:
+                    bodies = [attr.value] if attr.type == ir.AttributeType.GRAPH else (list(attr.value) if attr.type == ir.AttributeType.GRAPHS else [])
+                    for body in bodies:
+                        members = list(body)
+                        for bn in members:
                             cnt = sum(1 for (_t, n) in it.log if n is bn)
                             if cnt != 1:
                                 self.fail("nested-exactly-once", f"{it.kind} #{it.idx}: nested node {bn.name} of untouched {self.name(owner)} yielded {cnt} times")
+                        # ... and in the order of their own graph (backwards for a backward walk)
+                        got = [n for (_t, n) in it.log if any(n is m for m in members)]
+                        want_b = list(reversed(members)) if it.reverse else members
+                        if len(got) == len(want_b) and any(a is not b for a, b in zip(got, want_b)):
+                            self.fail("nested-order", f"{it.kind} #{it.idx}: the nodes of {body.name!r} (never touched) were yielded as {[n.name for n in got]}, graph order {'reversed ' if it.reverse else ''}is {[n.name for n in want_b]}")
         if it.relevant:
             self.inc("iterators_finished_after_relevant_edit")
         self.inc("iterators_finished")
@@ -506,7 +518,7 @@ class Sim:
         for it in self.its:
             if it.done:
                 continue
-            nested_total = sum(len(list(a.value)) for n in self.nodes for a in n.attributes.values() if a.type == ir.AttributeType.GRAPH)
+            nested_total = sum(len(list(a.value)) for n in self.nodes for a in n.attributes.values() if a.type == ir.AttributeType.GRAPH) + sum(len(list(g_)) for n in self.nodes for a in n.attributes.values() if a.type == ir.AttributeType.GRAPHS for g_ in a.value)
             cap = self.ever_inserted + nested_total * 4 + 2
             k = 0
             while not it.done and k <= cap:
